@@ -188,10 +188,11 @@ def header : List (Nat × Item) → List NodeInfo → Bool →
   | (i, _) :: _, _, _ => .error s!"reject {i} expected-node-or-start"
   | [], _, _ => .error "reject 0 no-start-line"
 
-/-- `FullStageReset`: chunk objects that vanish with their stage directory are not
+/-- `FullStageReset` ONLY (in the default mode the guard `chunks-redefined-at-reattach` must see the
+history as it is): chunk objects that vanish with their stage directory are not
 listed by the tracer (it only says `mkchunks n f 0`): reset them first -/
 def dropChunks (s : State) (n f k : Nat) : State :=
-  if s.phase == .loading && k < s.nch n f then
+  if s.full && s.phase == .loading && k < s.nch n f then
     (List.range (s.nch n f)).foldl (fun s i =>
       let o : Obj := ⟨n, f, .chunk i⟩
       if k ≤ i && s.m o != {} && enabled s (.reset o) then apply s (.reset o) else s) s
